@@ -11,6 +11,7 @@ import (
 	"github.com/cloudwego/dynamicgo/conv/j2t"
 	"github.com/cloudwego/dynamicgo/meta"
 	"github.com/cloudwego/dynamicgo/thrift"
+	"github.com/cloudwego/dynamicgo/thrift/annotation"
 
 	"verifharness/gen"
 	"verifharness/h"
@@ -800,6 +801,7 @@ func c14BodyFast(c *h.Ctx) {
 }
 
 func runC14(c *h.Ctx) {
+	defer c14NameCase(c) // last: it registers the agw./janus. annotations process-wide
 	defer c14BodyFast(c)
 	defer c14Base(c)
 	c.Run("programs", c.N(3000, 100000), func(cs *h.Case) {
@@ -1074,4 +1076,161 @@ func runC14(c *h.Ctx) {
 		cs.Distinct(fmt.Sprintf("hash-%d-%d-%v", len(hs.Fields), o.MapFieldWay, cfg.NonASCII))
 	})
 	_ = math.MaxInt32
+}
+
+// c14NameCase: the name-case annotations (agw./janus. to_snake, to_lower_camel_case) on fields and structs: the key
+// of a field is the re-spelled name (a table of names whose snake / lower-camel spelling is beyond dispute), an
+// annotation switched off ("false") leaves the name alone, a field's own annotation beats its struct's, and
+// api.key beats both. Checked on the descriptor (FieldByKey returns the field for exactly that key) and through
+// the native lookup of j2t.
+func c14NameCase(c *h.Ctx) { nameCasePhase(c, "tdesc") }
+
+func nameCasePhase(c *h.Ctx, pfx string) {
+	type nm struct{ name, snake, lower string }
+	table := []nm{
+		{"UserName", "user_name", "userName"}, {"userID", "user_id", ""}, {"HTTPMethod", "http_method", ""}, {"URL", "url", ""},
+		{"simple", "simple", "simple"}, {"snake_name", "snake_name", "snakeName"}, {"A", "a", "a"}, {"MyURLValue", "my_url_value", ""},
+		{"LogID", "log_id", ""}, {"fooBar", "foo_bar", "fooBar"}, {"FooBarBaz", "foo_bar_baz", "fooBarBaz"}, {"already_snake_case", "already_snake_case", "alreadySnakeCase"},
+	}
+	inited := false
+	c.Run("name-case", c.N(400, 8000), func(cs *h.Case) {
+		if !inited {
+			annotation.InitAGWAnnos()
+			inited = true
+		}
+		pkg := []string{"agw", "janus"}[cs.R.Intn(2)]
+		structCase := cs.R.Intn(3) // 0 none, 1 snake, 2 lower camel
+		perm := make([]int, len(table))
+		for i := range perm {
+			perm[i] = i
+		}
+		for i := len(perm) - 1; i > 0; i-- {
+			j := cs.R.Intn(i + 1)
+			perm[i], perm[j] = perm[j], perm[i]
+		}
+		n := 2 + cs.R.Intn(len(table)-2)
+		type fld struct {
+			nm
+			id   int
+			want string
+		}
+		var fs []fld
+		var sb strings.Builder
+		sb.WriteString("namespace go verif\nstruct S {\n")
+		for i := 0; i < n; i++ {
+			t := table[perm[i]]
+			f := fld{nm: t, id: i + 1, want: t.name}
+			anno := ""
+			own := cs.R.Intn(6) // 0,1 none; 2 snake; 3 lower; 4 own switched off; 5 api.key
+			eff := structCase
+			switch own {
+			case 2:
+				anno, eff = fmt.Sprintf(` (%s.to_snake = "%s")`, pkg, []string{"", "true"}[cs.R.Intn(2)]), 1
+			case 3:
+				if t.lower != "" {
+					anno, eff = fmt.Sprintf(` (%s.to_lower_camel_case = "true")`, pkg), 2
+				}
+			case 4:
+				// switched off on the field: the struct's case (if it is another one) or the plain name
+				if structCase == 1 {
+					anno, eff = fmt.Sprintf(` (%s.to_snake = "false")`, pkg), 0
+				}
+			case 5:
+				anno, eff = fmt.Sprintf(` (api.key = "k_%d")`, i), 3
+			}
+			switch eff {
+			case 1:
+				f.want = t.snake
+			case 2:
+				if t.lower == "" {
+					continue // no undisputed lower-camel spelling: leave the name out of this struct
+				}
+				f.want = t.lower
+			case 3:
+				f.want = fmt.Sprintf("k_%d", i)
+			}
+			fmt.Fprintf(&sb, "  %d: optional i32 %s%s,\n", f.id, t.name, anno)
+			fs = append(fs, f)
+		}
+		if len(fs) == 0 {
+			return
+		}
+		sb.WriteString("}")
+		switch structCase {
+		case 1:
+			fmt.Fprintf(&sb, ` (%s.to_snake = "true")`, pkg)
+		case 2:
+			fmt.Fprintf(&sb, ` (%s.to_lower_camel_case = "")`, pkg)
+		}
+		sb.WriteString("\nstruct R { 1: i32 x }\nservice Svc { " + []string{"R M(1: S req)", "S M(1: S req)", "S M(1: S req), S M2(1: S req)"}[cs.R.Intn(3)] + " }\n")
+		idl := sb.String()
+		cs.Info("idl", idl)
+		svc, err := thrift.NewDescritorFromContent(context.Background(), "nc.thrift", idl, nil, false)
+		if err != nil {
+			cs.Viol(pfx+":name-case:parse-error-on-valid-idl", "err", err)
+			return
+		}
+		desc, _ := RootOf(svc, "M")
+		st := desc.Struct()
+		keys := map[string]int{}
+		for _, f := range fs {
+			keys[f.want] = f.id
+		}
+		if len(keys) != len(fs) {
+			return // two names of the table meet in one spelling: not a case of this phase
+		}
+		var doc []string
+		for _, f := range fs {
+			fd := st.FieldById(thrift.FieldID(f.id))
+			if fd == nil || fd.Alias() != f.want {
+				cs.Viol(pfx+":name-case:alias", "field", f.name, "want", f.want, "got", fmt.Sprint(fd != nil && true), "alias", aliasOf(fd))
+				return
+			}
+			for _, k := range []string{f.want, f.name, f.snake, f.lower, strings.ToLower(f.name), strings.ToUpper(f.want)} {
+				if k == "" {
+					continue
+				}
+				got := st.FieldByKey(k)
+				wantID, declared := keys[k]
+				if declared != (got != nil) || (got != nil && int(got.ID()) != wantID) {
+					cs.Viol(pfx+":name-case:lookup-key-iff", "key", k, "declared", declared, "found", got != nil)
+					return
+				}
+				cs.Cover("name_case_lookups")
+			}
+			doc = append(doc, fmt.Sprintf("%q:%d", f.want, 1000+f.id))
+		}
+		// the native lookup: every field under its key
+		out, err := j2tDo(desc, "{"+strings.Join(doc, ",")+"}")
+		if err != nil {
+			cs.Viol(pfx+":name-case:j2t-error", "err", err)
+			return
+		}
+		v, derr := tref.Decode(out, tref.STRUCT)
+		if derr != nil || len(v.Fs) != len(fs) {
+			cs.Viol(pfx+":name-case:native-lookup-misses-declared-key", "decoded", fmt.Sprint(v), "want-fields", len(fs))
+			return
+		}
+		for _, f := range fs {
+			if x := v.FieldByID(int16(f.id)); x == nil || x.I != int64(1000+f.id) {
+				cs.Viol(pfx+":name-case:native-lookup-wrong-field", "field", f.name, "key", f.want)
+				return
+			}
+		}
+		cs.Cover("name_case_struct_ok")
+		cs.Cover(fmt.Sprintf("name_case_struct_level_%d", structCase))
+		cs.Distinct("nc-" + idl[20:min(len(idl), 80)])
+	})
+}
+
+func aliasOf(fd *thrift.FieldDescriptor) string {
+	if fd == nil {
+		return "<nil>"
+	}
+	return fd.Alias()
+}
+
+func j2tDo(desc *thrift.TypeDescriptor, doc string) ([]byte, error) {
+	cv := j2t.NewBinaryConv(conv.Options{})
+	return cv.Do(context.Background(), desc, []byte(doc))
 }
